@@ -71,7 +71,8 @@ func init() {
 		{
 			cj := []Job{ceremonyJob("c12n2", 2, 2, map[string]string{"twin": "1"}, "twin of machine 0 stopped at every step")}
 			if cr.Tier == "thorough" {
-				cj = append(cj, ceremonyJob("c12n3", 3, 2, map[string]string{"twin": "1"}, "twin of machine 0 stopped at every step (n=3)"))
+				cj = append(cj, ceremonyJob("c12n3", 3, 2, map[string]string{"twin": "1"}, "twin of machine 0 stopped at every step (n=3)"),
+					ceremonyJob("c12s2", 2, 2, map[string]string{"twin": "1", "stop2": "1"}, "twin of machine 0 stopped twice (every pair of steps)"))
 			}
 			res := cr.Pool.Run(cj)
 			cr.absorb(cj, res)
@@ -91,7 +92,7 @@ func init() {
 		cr.samples = append(cr.samples, map[string]interface{}{"stops": []string{"before the step", "step computed but not logged", "step logged"}})
 		cr.explanation = "dc4bc's share of C12 for the first DKG step: NewMachine/SetBaseSeed/ProcessOperation/GetOperationResult/storeOperation/getOperationsLog/ReplayOperationsLog and the commitments handler executed from SSA over the LevelDB/file stubs and kyber contracts. (1) Two machines built from the same mnemonic publish the same long-term key and the same commitments for the same operation. (2) A machine stopped before the step, after computing it without logging, or after logging it, reopened on the same database and rebuilt by replay (or by feeding the operation again when nothing was logged) has the same DKG instance (participant id, n, t, dealer commitments) as the uninterrupted one; replay does not log again. (3) Whole ceremony: a twin of machine 0 (same mnemonic, own database) is stopped at step k in {commitments, deals, responses, master key}, before or after logging, reopened the way cmd/airgapped does (NewMachine, password, InitKeys), rebuilt with ReplayOperationsLog (+ the unlogged operation fed again) and carries on: every later result (commitments, deals after decryption by their addressee, responses, announced key and polynomial) and the stored keyring (share, polynomial) equal those of the uninterrupted machine, and the log has the same length. Each stop point is also run natively with real kyber and real LevelDB on every run."
 		cr.bounds["scenario"] = "n=2, t=2 (thorough: n=3 too); all four DKG steps; one stop per run at each step, either after the result was computed and before it was logged or after it was logged; additionally around the commitments step of a second round of the same process"
-		cr.bounds["outside"] = "several restarts in one ceremony, a crash between the log write and the result-file write inside ProcessOperation (indistinguishable from 'logged' for the machine state; the result file is rewritten by the replay), bit-identity of kyber's outputs (determinism contract), ciphertext bytes of deals (freshly randomised per encryption: compared after decryption)"
+		cr.bounds["outside"] = "more than one restart per ceremony in the quick tier (thorough: every pair of stops at two different steps), a crash between the log write and the result-file write inside ProcessOperation (indistinguishable from 'logged' for the machine state; the result file is rewritten by the replay), bit-identity of kyber's outputs (determinism contract), ciphertext bytes of deals (freshly randomised per encryption: compared after decryption)"
 		cr.assume = append(cr.assume, "kyber contracts: seeded suites and frand are functions of their seed; LevelDB = atomic map that survives reopen; bip39/pbkdf2 evaluated natively")
 		cr.trusted = append(cr.trusted, "gosx SSA->SMT executor", "z3 4.8.12", "kyber contracts (validated natively per run)")
 	}}
